@@ -37,6 +37,10 @@ PCV_OP(nth_parts)
   return i128s(q) + " " + i128s(approx) + " " + i128s(capprox) + " " + i128s(lg);
 }
 
+// `nth_from n approx capprox lg` -> nth_prime(n) (the three further arguments are what the MODEL op of the same name starts its walk
+// from; the real function derives them itself)
+PCV_OP(nth_from) { return i128s(primecount::nth_prime(parse_i64(a.at(0)))); }
+
 // `nth_papprox n0 k` -> the first k values n >= n0 for which RiemannR_inverse(n) is a prime (trial division), each as
 // "n,q,pi(q),approx,pi(approx),ilog(approx)" with q = nth_prime(n); at most 4000 candidates are scanned
 PCV_OP(nth_papprox)
